@@ -278,7 +278,13 @@ class StmtMixin:
             self.assign(target.elts[0], ex[1].add_tags(tag, "key"), iter_node)
             self.assign(target.elts[1], ex[2].add_tags(tag), iter_node)
             return
-        if it.aliases():
+        if it.refs and not it.locs and all(self.obj(r).cls == "dict" for r in it.refs):
+            # iterating a dict yields its keys
+            from .interp_call import keys_deps
+            ks = [self.obj(r).keys for r in it.refs if self.obj(r).keys is not None]
+            kd = keys_deps(it.deps | frozenset((r, ("[*]",)) for r in it.refs))
+            elem = (join_all(ks) if ks else Val()).with_(deps=kd, extra=None).add_tags("key")
+        elif it.aliases():
             elem = self.read_elem(it)
             elem = elem.with_(extra=None)
         else:
